@@ -7,6 +7,7 @@ package main
 // the oracle), as the only member of a list of lists and as a parameter value.
 
 import (
+	"fmt"
 	"strings"
 
 	"github.com/WICG/webpackage/go/signedexchange/zverif/mc"
@@ -45,4 +46,60 @@ func init() {
 		}
 	}})
 	p.Rule += " C16/long-items: every length 0..1100 (quick) / 0..4200 (thorough) of one item x {byte sequence of pattern bytes, byte sequence of 0xff, string with an escaped character in the middle and at the end, token} x 3 contexts (alone in a list of lists, second member and again in a second inner list, parameter value next to another parameter)."
+}
+
+// C16/long-lists: the NUMBER of members as the swept quantity: a parameterised list of n identifiers, a list of lists
+// with one inner list of n items, a list of n inner lists, one identifier with n parameters.  The grammar has no upper
+// bound; a parser or serializer with a fixed table, a pre-sized slice or a "hardening" limit is first wrong at some count.
+func init() {
+	p := props["C16"]
+	p.Harnesses = append(p.Harnesses, &mc.Harness{Name: "C16/long-lists", Run: func(c *mc.Ctx) {
+		var counts []int
+		if c.Quick() {
+			for _, b := range []int{16, 32, 64, 100, 128, 256, 512, 1000, 1024, 2048, 4096} {
+				counts = append(counts, b-1, b, b+1)
+			}
+		} else {
+			for n := 1; n <= 4200; n++ {
+				counts = append(counts, n)
+			}
+			counts = append(counts, 8191, 8192, 8193, 16384, 65535, 65536, 65537)
+		}
+		n := counts[c.Free(len(counts), "count")]
+		switch c.Free(4, "shape") {
+		case 0:
+			g := make([]c16GenMember, n)
+			for i := range g {
+				g[i] = c16GenMember{label: fmt.Sprintf("m%d", i)}
+			}
+			c16PlCase(c, g)
+		case 1:
+			inner := make([]c16Gen, n)
+			for i := range inner {
+				inner[i] = gInt(int64(i))
+			}
+			c16LolCase(c, [][]c16Gen{inner})
+		case 2:
+			g := make([][]c16Gen, n)
+			for i := range g {
+				g[i] = []c16Gen{gInt(int64(i))}
+			}
+			c16LolCase(c, g)
+		default:
+			if n > 1100 {
+				n = 1100 // two insertion orders (ascending and descending generation order), not every permutation
+			}
+			m := c16GenMember{label: "a"}
+			for i := 0; i < n; i++ {
+				m.params = append(m.params, c16GenParam{key: fmt.Sprintf("k%d", (i*7919)%n), val: gInt(int64(i))})
+			}
+			id, rev := make([]int, n), make([]int, n)
+			for i := range id {
+				id[i], rev[i] = i, n-1-i
+			}
+			m.orders = [][]int{id, rev}
+			c16PlCase(c, []c16GenMember{m})
+		}
+	}})
+	p.Rule += " C16/long-lists: member counts b-1, b, b+1 for b in {16, 32, 64, 100, 128, 256, 512, 1000, 1024, 2048, 4096} (thorough: every count 1..4200 and 8191..8193, 16384, 65535..65537) x 4 shapes (n identifiers, one inner list of n items, n inner lists, one identifier with n parameters)."
 }
